@@ -280,6 +280,22 @@ func (mergeSuite) Gen(r *rand.Rand, i int) Case {
 	for j := 0; j < 6; j++ {
 		c.Ops = append(c.Ops, "a "+encodeSide(r, t, paths, 1, map[string]bool{})+" | "+encodeSide(r, t, paths, 2, nil)+" | "+encodeSide(r, t, paths, 3, nil))
 	}
+	// shared backing arrays: r1.Merge(o1); r1.Merge(o2); then ANOTHER receiver r2.Merge(o1); r2.Merge(o3) — r1 must still
+	// read fold(r1, o1, o2) (a receiver that adopts o1's slice instead of copying shares its spare capacity with r2)
+	allUnset := map[string]bool{}
+	for _, p := range paths {
+		allUnset[p] = false
+	}
+	for j := 0; j < 6; j++ {
+		e1, e2 := map[string]bool(nil), map[string]bool(nil)
+		if j%2 == 0 {
+			e1, e2 = allUnset, allUnset // two EMPTY receivers: the case in which adopting the other side's storage is tempting
+		}
+		c.Ops = append(c.Ops, "b "+encodeSide(r, t, paths, 1, e1)+" | "+encodeSide(r, t, paths, 2, nil)+" | "+encodeSide(r, t, paths, 3, nil)+" | "+encodeSide(r, t, paths, 4, e2)+" | "+encodeSide(r, t, paths, 5, nil))
+	}
+	for j := 0; j < 0; j++ {
+		c.Ops = append(c.Ops, "b "+encodeSide(r, t, paths, 1, nil)+" | "+encodeSide(r, t, paths, 2, nil)+" | "+encodeSide(r, t, paths, 3, nil)+" | "+encodeSide(r, t, paths, 4, nil)+" | "+encodeSide(r, t, paths, 5, nil))
+	}
 	// factory layering (hystrix.Factory, responsetimeslo.Factory): per-circuit constructors from last to first, then the
 	// factory's own config, then the library defaults — a fold of Merge
 	if _, ok := factoryResult[name]; ok {
@@ -383,6 +399,24 @@ func (mergeSuite) Run(h map[string]string, ops []string) []string {
 				parts := make([]string, len(paths))
 				for j, p := range paths {
 					parts[j] = p + "=" + getLeaf(fieldByPath(got, p))
+				}
+				return strings.Join(parts, ";")
+			}
+			if strings.HasPrefix(op, "b ") {
+				sides := strings.Split(strings.TrimPrefix(op, "b "), " | ")
+				vals := make([]reflect.Value, 5)
+				for k := range vals {
+					vals[k] = reflect.New(t)
+					decodeInto(vals[k].Elem(), sides[k])
+				}
+				r1, o1, o2, r2, o3 := vals[0], vals[1].Elem(), vals[2].Elem(), vals[3], vals[4].Elem()
+				r1.MethodByName("Merge").Call([]reflect.Value{o1})
+				r1.MethodByName("Merge").Call([]reflect.Value{o2})
+				r2.MethodByName("Merge").Call([]reflect.Value{o1})
+				r2.MethodByName("Merge").Call([]reflect.Value{o3})
+				parts := make([]string, len(paths))
+				for j, p := range paths {
+					parts[j] = p + "=" + getLeaf(fieldByPath(r1.Elem(), p))
 				}
 				return strings.Join(parts, ";")
 			}
